@@ -499,6 +499,14 @@ def Client.afterRead (cl : Client) : Client :=
 
 def Sys.usable (s : Sys) (i : Nat) : Bool := (s.client i).opened && (s.client i).fdOpen
 
+/-- a client that has sent bytes without (so far) having been seen with a connection: it is waiting
+    in the listen queue (or was reset in it).  What such a client does next — a new request, FIN,
+    close — reaches the server only when its connection is accepted, and then takes effect one or two
+    loop iterations after the accept; that interleaving with the load check is not modelled, so
+    these three actions are outside the scenario language (the harness skips them too). -/
+def Sys.stranded (s : Sys) (i : Nat) : Bool :=
+  decide ((s.client i).pre > 0) && !(s.client i).accepted && (s.conn i).isNone
+
 /-- the scripted action itself (before the main loop reacts) -/
 def Sys.act (cfg : Cfg) (s : Sys) : Op → Sys
   | .tick n =>
@@ -511,7 +519,7 @@ def Sys.act (cfg : Cfg) (s : Sys) : Op → Sys
     else if s.disabled = 3 then s.setClient i { opened := true, fdOpen := false, rderr := true }
     else { s.setClient i { opened := true, fdOpen := true } with backlog := s.backlog ++ [i] }
   | .prepare i r =>
-    if !s.usable i ∨ (s.backlog.contains i ∧ (s.client i).pre > 0) then s
+    if !s.usable i ∨ s.stranded i then s
     else s.modClient i fun cl => { cl with req := some r, off := 0 }
   | .send i n =>
     if !s.usable i then s else
@@ -535,11 +543,11 @@ def Sys.act (cfg : Cfg) (s : Sys) : Op → Sys
     let s := s.onConn i fun c => (clientDrain s.now c, [])
     s.modClient i Client.afterRead
   | .fin i =>
-    if !s.usable i then s else
+    if !s.usable i ∨ s.stranded i then s else
     if s.backlog.contains i then s.modClient i fun cl => { cl with preFin := true }
     else s.onConn i fun c => (finConn false c, [])
   | .close i =>
-    if !s.usable i then s else
+    if !s.usable i ∨ s.stranded i then s else
     let s := s.modClient i fun cl => { cl with fdOpen := false }
     if s.backlog.contains i then s.modClient i fun cl => { cl with preClosed := true }
     else s.onConn i fun c => (finConn true c, [])
